@@ -2,7 +2,7 @@
 """Regression test of the machinery itself (not a check): replays every stored seeded change and every stored
 behaviour-preserving refactoring in a scratch copy of /repo and /verif under /tmp/selftest (removed at the end).
 A seed must make the check of its own property print a VIOLATION line; a refactoring must leave all twenty quiet.
-usage: ./selftest.py [--seeds-only] [--benign-only] [--only <glob of seed dir names>] [--base <scratch dir>] [--log <file>]     -> build/selftest.log, exit 1 when an expectation fails"""
+usage: ./selftest.py [--seeds-only] [--benign-only] [--only <glob of seed dir names>] [--only-benign <glob of refactoring dir names>] [--base <scratch dir>] [--log <file>]     -> build/selftest.log, exit 1 when an expectation fails"""
 import glob, json, os, shutil, subprocess, sys
 ENV = dict(os.environ, GOFLAGS="-mod=mod", GOPROXY="off", GOSUMDB="off", GOTOOLCHAIN="local")
 def sh(cmd, cwd=None, env=None):
@@ -12,6 +12,7 @@ def opt(name, dflt):
     return sys.argv[sys.argv.index(name) + 1] if name in sys.argv else dflt
 base = opt("--base", "/tmp/selftest")
 only = opt("--only", "*")
+only_benign = opt("--only-benign", "*")
 shutil.rmtree(base, ignore_errors=True); os.makedirs(base)
 repo, verif = base + "/repo", base + "/verif"
 sh(["bash", "-c", f"mkdir -p {repo} && git -C /repo archive HEAD | tar -x -C {repo} && cd {repo} && git init -q && git add -A && git -c user.email=x@x -c user.name=x commit -qm base"])
@@ -38,7 +39,7 @@ if "--benign-only" not in sys.argv:
         bad += 0 if ok else 1
 if "--seeds-only" not in sys.argv:
     props = [f"C{i:02d}" for i in range(1, 21)]
-    for d in sorted(glob.glob("/verif/benign/*/")):
+    for d in sorted(glob.glob("/verif/benign/" + only_benign + "/")):
         name = os.path.basename(d.rstrip("/"))
         rc, out = sh(["git", "-C", repo, "apply", d + "patch.diff"])
         if rc != 0:
